@@ -149,9 +149,29 @@ def _drop_counters(snap):
     return s
 
 
-def fire(cfg, w, seed, history, ev, tracks, pre: StatePre):
+class _SuspectedHang(Exception):
+    pass
+
+
+def fire(cfg, w, seed, history, ev, tracks, pre: StatePre, _retry=False):
     """Apply one event on `tracks` (which is in the pre-state) and evaluate all
-    oracles.  Returns dict(status, key, violations, tags, reusable, post_bad)."""
+    oracles.  Returns dict(status, key, violations, tags, reusable, post_bad).
+    A watchdog expiry is only reported after the whole transition has been repeated on
+    a freshly rebuilt object with a doubled limit and expired again."""
+    if not _retry:
+        try:
+            return _fire(cfg, w, seed, history, ev, tracks, pre, confirm=False)
+        except _SuspectedHang:
+            saved = events.WATCHDOG_S
+            events.WATCHDOG_S = saved * 2
+            try:
+                return _fire(cfg, w, seed, history, ev, rebuild(w, seed, history), pre, confirm=True)
+            finally:
+                events.WATCHDOG_S = saved
+    return _fire(cfg, w, seed, history, ev, tracks, pre, confirm=True)
+
+
+def _fire(cfg, w, seed, history, ev, tracks, pre: StatePre, confirm):
     props = cfg.props
     vio = []
     info = dict(pre.info)
@@ -170,6 +190,8 @@ def fire(cfg, w, seed, history, ev, tracks, pre: StatePre):
         res["reusable"] = True
         return res
     if out.status == "hang":
+        if not confirm:
+            raise _SuspectedHang()
         if "C03" in props and "C03" not in pre.bad:
             add("C03", "hang", f"event {ev[:5]} did not terminate within {events.WATCHDOG_S}s", "apply", "hang")
         res["tag"] = "hang"
@@ -204,7 +226,7 @@ def fire(cfg, w, seed, history, ev, tracks, pre: StatePre):
         # primitive action: object-route inverse probe only; never a BFS successor
         res["status"] = "prim"
         if "C01" in props:
-            _object_route_probe(tracks, pre, out.action, add, tag)
+            _object_route_probe(tracks, pre, out.action, add, tag, confirm)
         return res
     if "C20" in props:
         exp_payload = None
@@ -243,11 +265,11 @@ def fire(cfg, w, seed, history, ev, tracks, pre: StatePre):
         if len(h.undo_stack) != len(history) + 1 or h.redo_stack:
             add("C02", "steps-per-action", f"undo stack has {len(h.undo_stack)} entries after {len(history) + 1} top-level actions", "apply", tag)
     if cfg.undo_probe:
-        _undo_probe(cfg, tracks, pre, add, tag, ev, set(post_bad))
+        _undo_probe(cfg, tracks, pre, add, tag, ev, set(post_bad), confirm)
     return res
 
 
-def _object_route_probe(tracks, pre, action, add, tag):
+def _object_route_probe(tracks, pre, action, add, tag, confirm=True):
     """a.inverse() -> pre ; .inverse() -> post ; .inverse() -> pre (object route)"""
     post_obs = canon.observe(tracks)
     cur = action
@@ -256,6 +278,8 @@ def _object_route_probe(tracks, pre, action, add, tag):
         try:
             cur = events.with_watchdog(cur.inverse)
         except events.Hang:
+            if not confirm:
+                raise _SuspectedHang() from None
             add("C01", "inverse-hangs", "inverse() did not terminate", phase, tag)
             return
         except Exception as e:  # noqa: BLE001
@@ -268,7 +292,7 @@ def _object_route_probe(tracks, pre, action, add, tag):
             return
 
 
-def _undo_probe(cfg, tracks, pre, add, tag, ev, post_bad=frozenset()):
+def _undo_probe(cfg, tracks, pre, add, tag, ev, post_bad=frozenset(), confirm=True):
     """undo -> pre, redo -> post, undo -> pre on the object that just took `ev`"""
     props = cfg.props
     post_obs = canon.observe(tracks)
@@ -280,6 +304,8 @@ def _undo_probe(cfg, tracks, pre, add, tag, ev, post_bad=frozenset()):
         try:
             r = events.with_watchdog(tracks.undo if op == "undo" else tracks.redo)
         except events.Hang:
+            if not confirm:
+                raise _SuspectedHang() from None
             if "C01" in props:
                 add("C01", "inverse-hangs", f"{op} did not terminate", phase, tag)
             return
